@@ -197,6 +197,7 @@ def schedule_part(run, rng, variants, scratch, quick):
         (v["i1i2"], v["i2i1"], v["i1d2"]),
         (v["i2i1"], v["i2i1"], v["i1i2"]),
         (v["i1i2-unpackonly"], v["i2i1-unpackonly"], None),     # declarations that differ only in their generated unpack code
+        (v["i1i2-packonly"], v["i2i1-packonly"], None),         # ... only in their generated pack code
     ]
     sid = 0
     if quick:
